@@ -63,6 +63,7 @@ func Run(o *drv.Out) {
 	execdrv.Guard(o, func() { corpusRestartPatterns(o) })
 	execdrv.Guard(o, func() { corpusReProposal(o) })
 	execdrv.Guard(o, func() { corpusSignatureCache(o) })
+	execdrv.Guard(o, func() { corpusOrderMemoWindow(o) })
 	for ci := 0; ci < nCases; ci++ {
 		execdrv.Guard(o, func() { runCase(o, ci, nHeights, bigSends) })
 	}
@@ -949,6 +950,151 @@ func corpusSignatureCache(o *drv.Out) {
 		o.Nontrivial(fmt.Sprintf("%s|%s|%d", o.CurCase(), m.scheme, m.k))
 	}
 	o.Sample(fmt.Sprintf("forged-signature-re-executed: %d members (forged ed25519 at batch indices 0..9, secp256k1, eth, BLS); the block carrying the forged transaction gets the cold verdict on every re-execution; the re-submitted forged transaction is never included", len(members)))
+}
+
+// corpusOrderMemoWindow: scenario "order-memo-window-after-page-query". On an own-root chain the
+// certificate results of height N carry the lock orders found in the send memos of the proposal block
+// AND of the blocks N-15..N-11 (controller.HandleSwaps -> fsm.ProcessRootChainOrderBook -> LoadBlock),
+// for sell orders of the chain's own order book that are not locked yet. Sends carrying a lock-order
+// memo for five sell orders are committed at heights 5..9, the five sell orders themselves (ids known
+// in advance: the first 20 bytes of the transaction hash) only at height 11: at N = 16..20 the
+// certificate results must lock order N-16 because of the memo in block N-11, read from the archive.
+// One height earlier the node under test restarts; at height N, on a cold block cache, it answers
+// read-only explorer queries (Store.GetBlocks pages whose bottom entry is block N-10, i.e. whose "took"
+// column reads the header of block N-11) and then produces (even N: the proposer P) or validates (odd
+// N: the replica V) while the other one stays unqueried. Oracle: path agreement on the certificate
+// results (the replica validates the proposer's proposal; replay and sync paths commit it).
+func corpusOrderMemoWindow(o *drv.Out) {
+	o.Case("order-memo-window-after-page-query")
+	rng := rand.New(rand.NewSource(61))
+	net := node.NewNetwork(27, 4, nil, 16)
+	defer net.Close()
+	c := execdrv.NewChain(o, net, rng, []int{16, 2})
+	P, V, R, S := c.NewNode("P", 0), c.NewNode("V", 1), c.NewNode("R", -1), c.NewNode("S", -1)
+	var orders [][]byte
+	for i := 0; i < 5; i++ {
+		orders = append(orders, net.CreateOrderTx(net.AcctKeys[8+i%3], node.ChainId, 2_000_000_000+uint64(i), 5+uint64(i), net.FreshAddr(900+i), 15000, 1))
+	}
+	lockMemo := func(i int) string {
+		bz, err := lib.MarshalJSON(&lib.LockOrder{OrderId: node.OrderId(orders[i]), ChainId: node.ChainId, BuyerReceiveAddress: net.FreshAddr(950 + i)})
+		if err != nil {
+			panic(err)
+		}
+		return string(bz)
+	}
+	for P.Height() <= 20 {
+		h := P.Height()
+		queried, other := P, V
+		if h%2 == 1 {
+			queried, other = V, P
+		}
+		txs := []node.MixTx{{Kind: "send", Bytes: net.SendTx(net.AcctKeys[int(h)%3], net.FreshAddr(int(h)), 1000, 10000, h, ""), Expect: true}}
+		if h >= 5 && h <= 9 {
+			txs = append(txs, node.MixTx{Kind: "send:lock-order-memo", Bytes: net.SendTx(net.AcctKeys[4+int(h)%3], net.FreshAddr(970+int(h)), 7, 30000, h, lockMemo(int(h)-5)), Expect: true})
+		}
+		if h == 11 {
+			for _, tx := range orders {
+				txs = append(txs, node.MixTx{Kind: "create-order", Bytes: tx, Expect: true})
+			}
+		}
+		inWindow := h >= 16 && h <= 20 // ProcessRootChainOrderBook looks back only from height 16 on
+		if h >= 15 && h <= 19 {
+			// the node queried at the next height restarts now
+			next := P
+			if (h+1)%2 == 1 {
+				next = V
+			}
+			if !c.Restart(next) {
+				return
+			}
+		}
+		traffic := ""
+		query := func(nd *node.Node) {
+			if !inWindow {
+				return
+			}
+			nd.PurgeProcessCaches() // nothing since its restart made this node read block N-11
+			newest, bottom := h-1, h-10
+			err := nd.Explorer(func(st lib.StoreI) lib.ErrorI {
+				for _, pp := range []int{1, 2, 5, 10} {
+					if int(newest-bottom+1)%pp != 0 {
+						continue
+					}
+					if _, e := st.GetBlocks(lib.PageParams{PageNumber: int(newest-bottom+1) / pp, PerPage: pp}); e != nil {
+						return e
+					}
+					o.Count("explorer:blocks-page")
+				}
+				_, e := st.GetBlockHeaderByHeight(bottom)
+				return e
+			})
+			if err != nil {
+				o.Fail("C03:explorer-query-failed", err.Error(), map[string]any{"case": o.CurCase(), "height": h})
+			}
+			traffic = fmt.Sprintf("node %s, restarted one height earlier, answered Store.GetBlocks pages (sizes 1, 2, 5, 10) whose bottom entry is block %d and GetBlockHeaderByHeight(%d) on a cold block cache", c.Names[nd], bottom, bottom)
+		}
+		pre := P.StateDigest()
+		c.Hold = true
+		if queried == P {
+			query(P)
+		}
+		p, ok := c.ProposeVDF(P, txs, "produce", nil)
+		if !ok {
+			o.Fail("C03:proposer-failed", "ProduceProposal failed on an honest mempool", map[string]any{"case": o.CurCase(), "height": h})
+			return
+		}
+		nLocks := 0
+		if p.Results != nil && p.Results.Orders != nil {
+			nLocks = len(p.Results.Orders.LockOrders)
+		}
+		fail := func(path, got, want string) {
+			info := replayInfo(o, c, h, p, path)
+			info["explorer_queries"], info["lock_orders_in_the_proposers_results"] = traffic, nLocks
+			o.Fail("C03:path-diverges:block-cache-after-page-query",
+				fmt.Sprintf("height %d: the send in block %d carries a lock-order memo for a sell order that is on the book and unlocked; %s; the proposer's certificate results carry %d lock order(s); path %q gives %q, expected %q (unqueried node: %s)", h, h-11, traffic, nLocks, path, got, want, c.Names[other]), info)
+		}
+		okP := c.Validate(P, p)
+		resP := ""
+		if okP {
+			resP = c.Commit(P, p, false)
+		}
+		post := P.StateDigest()
+		o.Op(fmt.Sprintf("def %d %s %s %s %s", h, pre, p.ID, post, p.Obs), "def")
+		c.Release()
+		want := fmt.Sprintf("ok state=%s obs=%s", post, p.Obs)
+		if !okP || resP != want {
+			fail("propose+validate+commit-cached", fmt.Sprintf("validate ok=%v commit %q", okP, resP), want)
+			return
+		}
+		if queried == V {
+			query(V)
+		}
+		o.Count("compared")
+		if !c.Validate(V, p) {
+			fail("validate on the replica", "rejected", "ok")
+			return
+		}
+		for _, x := range []struct{ path, got string }{{"validate+commit-cached", c.Commit(V, p, false)}, {"commit-replay", c.Commit(R, p, false)}, {"sync", c.Commit(S, p, true)}} {
+			o.Count("compared")
+			if x.got != want {
+				fail(x.path, x.got, want)
+				return
+			}
+		}
+		wantLocks := 0
+		if inWindow {
+			wantLocks = 1
+		}
+		if nLocks != wantLocks {
+			o.Fail("C03:scenario-expectation-differs:order-memo-window-after-page-query", fmt.Sprintf("height %d: the proposer's certificate results carry %d lock orders, the scenario expects %d (%d transactions included of %d)", h, nLocks, wantLocks, p.NTx, len(txs)), replayInfo(o, c, h, p, "produce"))
+			return
+		}
+		if inWindow {
+			o.Count("lock-order-from-archived-block")
+			o.Nontrivial(fmt.Sprintf("%s|%d", o.CurCase(), h))
+		}
+	}
+	o.Sample("order-memo-window-after-page-query: at heights 16..20 the certificate results lock the sell order whose lock memo sits in block N-11, on a proposer / replica that restarted and answered block-list pages ending right above that block")
 }
 
 // step is one height of the chain as the proposer saw it.
